@@ -276,7 +276,7 @@ def run(ctx):
         check_die_cases(ctx, b, r2.cases_path, "die-" + prof)
 
     # --- V: random long lists and arbitrary bytes
-    n = int(os.environ.get("C08_TRACE_N") or (400 if q else 6000))
+    n = int(os.environ.get("C08_TRACE_N") or (300 if q else 6000))
     tr = ctx.record(bins["dev"], "lists.ndjson", ["--seed", ctx.seed, "--n", n, "--maxlen", 40])
     validate_groups(ctx, tr)
 
